@@ -117,7 +117,7 @@ def enumerate_programs(
     ops="+-*",
     repeats=True,
     min_leaves=1,
-    names=("b", "c", "d", "e"),
+    names=("b", "c", "d", "e", "f", "g"),
     target="a",
     min_total_order=0,
 ):
